@@ -63,7 +63,8 @@ fn observe<const N: usize>(b: &Bitset<N>, want: &[usize]) -> Vec<(String, Value,
                 bad.push(("iter_bits".to_string(), json!({"after_next_calls": adv, "nth": k, "got": got}), json!(w)));
             }
             // and the iterator continues right behind the element nth returned
-            let rest: Vec<usize> = itr.collect();
+            // (not polled again once it has returned None: an iterator need not be fused)
+            let rest: Vec<usize> = if got.is_some() { itr.collect() } else { vec![] };
             let wrest: Vec<usize> = want.iter().skip(adv + k + 1).cloned().collect();
             if rest != wrest && bad.len() < 4 {
                 bad.push(("iter_bits".to_string(), json!({"after_next_calls": adv, "nth": k, "rest": rest}), json!(wrest)));
